@@ -11,10 +11,12 @@ option is switched on), and copy() and a pickle round trip give an automaton of 
 with an identical definition.
 
 What is proved here (about the model, for all inputs):
-  * `freeze_value` (automata/base/utils.py) on a model of Python values `PyVal`: the result
-    contains no mutable container for every supported value, has the same abstract value, and
-    freezing is idempotent — hence what `Automaton.__init__` stores in the default
-    configuration is immutable and equal in value to the arguments;
+  * `freeze_value` (automata/base/utils.py, as of /repo fix 3900daf: tuples are entered) on a
+    model of Python values `PyVal`: the result contains no mutable container for every value
+    Python can build (`supported`: dictionary keys and set / frozenset elements are hashable —
+    anything else raises `TypeError: unhashable type` before `freeze_value` is reached), has the
+    same abstract value, and freezing is idempotent — hence what `Automaton.__init__` stores in
+    the default configuration is immutable and equal in value to the arguments;
   * `__setattr__` / `__delattr__` always raise `AttributeError`;
   * for each of the eight classes the public `__slots__` are exactly the `__init__` parameters
     and all of them are handed to `Automaton.__init__` (evaluated on the tables regenerated
@@ -36,10 +38,15 @@ open AV AV.VA AV.VA.PyVal AV.VA.Obj
 
 /-! ## `freeze_value` -/
 
-/-- After freezing a supported value no `dict`, `set` or `list` object is left anywhere inside
-it (keys, tuple members and frozenset members included).  `supported`: tuples, frozensets and
-dictionary keys / set elements hold only immutable members — which Python itself enforces for
-keys and set elements (hashability); mutable containers may nest in each other arbitrarily. -/
+/-- After freezing no `dict`, `set` or `list` object is left anywhere inside the value (keys,
+tuple members and frozenset members included).  `supported` is no restriction on real inputs:
+it says that every dictionary key and every set / frozenset element is hashable (on the model:
+`isFrozen` — an unhashable `dict` / `set` / `list` nowhere inside it), which Python enforces when
+the dict / set / frozenset is *built* (`{[1]: 2}`, `{[1]}`, `frozenset([[1]])`, `{(1, [2]): 3}`
+raise `TypeError: unhashable type`).  Lists, tuples, dict / frozendict values may hold anything
+and nest arbitrarily — in particular a list inside a tuple (the MNTM result
+`('q1', [['1', 'R']])`, the DPDA result `('q1', ['1', '0'])`) is covered since fix 3900daf.
+What the model does not see: a user-defined hashable object (`other`) with mutable content. -/
 theorem C18_freeze_immutable (v : PyVal) (h : v.supported = true) : (freeze v).isFrozen = true :=
   isFrozen_freeze v h
 
@@ -54,18 +61,50 @@ theorem C18_freeze_idem (v : PyVal) : freeze (freeze v) = freeze v := freeze_ide
 theorem C18_freeze_fixes_immutable (v : PyVal) (h : v.isFrozen = true) : freeze v = v :=
   freeze_of_isFrozen v h
 
-/-- Why `supported` is needed: the code does not look inside tuples, so a list placed inside a
-tuple survives (`freeze_value((1, [2]))` is `(1, [2])`).  This is the boundary of the property's
-domain, not a case the theorem above covers. -/
-theorem C18_freeze_does_not_enter_tuples :
-    (freeze (.tuple [.int 1, .list [.int 2]])).isFrozen = false := rfl
+/-- Tuples are entered (fix 3900daf): `freeze (x₁, …, xₙ) = (freeze x₁, …, freeze xₙ)` — the
+same as for a list. -/
+theorem C18_freeze_enters_tuples (xs : List PyVal) :
+    freeze (.tuple xs) = .tuple (xs.map freeze) ∧ freeze (.tuple xs) = freeze (.list xs) := by
+  simp only [freeze, freezeList_eq_map, and_self]
+
+/-- … so a list placed inside a tuple is frozen: `freeze_value((1, [2]))` is `(1, (2,))`, and
+the MNTM result `('q1', [['1', 'R']])` becomes `('q1', (('1', 'R'),))`.  (Before fix 3900daf
+the code returned tuples as they were and `C18_freeze_does_not_enter_tuples` stated the
+opposite here.) -/
+theorem C18_freeze_tuple_holding_list :
+    freeze (.tuple [.int 1, .list [.int 2]]) = .tuple [.int 1, .tuple [.int 2]] ∧
+    freeze (.tuple [.str "q1", .list [.list [.str "1", .str "R"]]]) =
+      .tuple [.str "q1", .tuple [.tuple [.str "1", .str "R"]]] ∧
+    (freeze (.tuple [.str "q1", .list [.list [.str "1", .str "R"]]])).isFrozen = true :=
+  ⟨rfl, rfl, rfl⟩
+
+/-- Frozensets are still returned without looking inside, and dictionary keys are never touched.
+That is harmless exactly because of hashability: a frozenset whose elements are hashable
+(`isFrozenList`) is already immutable, and the same holds for keys. -/
+theorem C18_freeze_frozenset (xs : List PyVal) :
+    freeze (.frozenset xs) = .frozenset xs ∧
+    (isFrozenList xs = true → (freeze (.frozenset xs)).isFrozen = true) :=
+  ⟨rfl, fun h => by simp only [freeze, isFrozen, h]⟩
+
+/-- `supported` holds of every immutable (= hashable) value, and it is exactly "keys and set /
+frozenset elements hashable": the only way to fail it is an unhashable key or element. -/
+theorem C18_supported_of_immutable (v : PyVal) (h : v.isFrozen = true) : v.supported = true :=
+  supported_of_isFrozen v h
+
+/-- The excluded values are the ones Python refuses to build: a list as a set element / as a
+dictionary key, a tuple holding a list as a key. -/
+example : (PyVal.set [.list [.int 1]]).supported = false ∧
+    (PyVal.dict [(.list [.int 1], .int 2)]).supported = false ∧
+    (PyVal.frozenset [.list [.int 1]]).supported = false ∧
+    (PyVal.dict [(.tuple [.int 1, .list [.int 2]], .int 3)]).supported = false := ⟨rfl, rfl, rfl, rfl⟩
 
 /-- The regenerated shape of `freeze_value`: which `isinstance` branches exist, in which order,
-and that the dict / set / list branches recurse (the model `PyVal.freeze` mirrors exactly
-this). -/
+and that the dict / set / list-or-tuple branches recurse (the model `PyVal.freeze` mirrors
+exactly this). -/
 theorem C18_freeze_source_shape :
     Gen.Validate.freezeBranches =
-      [("str,int", "same"), ("dict", "frozendict+rec"), ("set", "frozenset+rec"), ("list", "tuple+rec")] := by
+      [("str,int", "same"), ("dict", "frozendict+rec"), ("set", "frozenset+rec"),
+       ("list,tuple", "tuple+rec")] := by
   decide
 
 /-- Non-vacuity: an MNTM-style transition table written with nested lists
@@ -78,6 +117,16 @@ example :
       .tuple [.tuple [.str "q0", .tuple [.tuple [.str "1", .str "R"]]]])] ∧
     (freeze v).isFrozen = true := ⟨rfl, rfl, rfl⟩
 
+/-- Non-vacuity: the reviewer's MNTM table `{'q0': {('1',): [('q1', [['1', 'R']])]}}` — a tuple
+holding a list — is supported and freezes to an immutable value. -/
+example :
+    let v : PyVal := .dict [(.str "q0", .dict [(.tuple [.str "1"],
+      .list [.tuple [.str "q1", .list [.list [.str "1", .str "R"]]]])])]
+    v.supported = true ∧
+    freeze v = .frozendict [(.str "q0", .frozendict [(.tuple [.str "1"],
+      .tuple [.tuple [.str "q1", .tuple [.tuple [.str "1", .str "R"]]]])])] ∧
+    (freeze v).isFrozen = true := ⟨rfl, rfl, rfl⟩
+
 /-- Non-vacuity: an NFA transition table `{"q": {"": {"p"}, "a": set()}}`. -/
 example :
     freeze (.dict [(.str "q", .dict [(.str "", .set [.str "p"]), (.str "a", .set [])])]) =
@@ -86,10 +135,11 @@ example :
 
 /-! ## what the constructor stores -/
 
-/-- In the default configuration every stored attribute is immutable (for supported
-arguments): no nested set, map or list can be written to afterwards, and — the stored value
-being a function of the argument's value at construction time — later mutation of the
-argument objects cannot reach it. -/
+/-- In the default configuration every stored attribute is immutable (for every argument
+Python can build: keys and set elements hashable, see `C18_freeze_immutable`): no nested set,
+map or list can be written to afterwards, and — the stored value being a function of the
+argument's value at construction time — later mutation of the argument objects cannot reach
+it. -/
 theorem C18_stored_immutable (kwargs : List (String × PyVal))
     (h : ∀ kv ∈ kwargs, kv.2.supported = true) :
     ∀ kv ∈ storeKwargs false kwargs, kv.2.isFrozen = true := by
